@@ -132,6 +132,9 @@ DML_SITES = CALL_SITES + [
     "select (select User {{ name }} filter exists ({call}))",
     "with f := (for k in {{1}} union ({call})) select count(f)",
     "select {call} union {call}",
+    "with x := {call} group Card by .cost",
+    "select count((with x := {call} group Card by .cost))",
+    "with x := {call}, g := (group Card by .cost) select count(g)",
     "select ({call}) ?? ({call})",
     "select (count({call}), (select count((with w := {call} select w))))",
     "insert User {{ name := 'cu', email := 'ce' }} unless conflict on .email else (update User set {{ age := count({call}) }})",
